@@ -371,7 +371,7 @@ def boundary_sweep_programs(boundaries, mnemonics=REL):
                     yield ('fwd-data', b, mn, delta, mis), [('pad', mis), ('ref', mn, 'T'), ('pad', max(0, k - 6)), ('data', 1234), ('pad', 2), ('label', 'T'), ('opr', 'ADD')]
 
 
-def gen_tour(r, nblocks=None, funcproc=False):
+def gen_tour(r, nblocks=None, funcproc=False, huge=0.0):
     """Executable tour: n labelled blocks in shuffled source order; block i writes byte id_i to stream 0 and
     transfers control to the next block of a random permutation (BR / BRZ with areg=0 / BRN with areg=-1 /
     LDAP+BRB); ids are held in labelled DATA words read through absolute references. The last block exits.
@@ -384,6 +384,10 @@ def gen_tour(r, nblocks=None, funcproc=False):
     r.shuffle(src_order)                   # source order
     pads = [0, 1, 2, 3, 5, 11, 13, 14, 15, 16, 17, 30, 250, 255, 256]
     items = [('ref', 'BR', 'B%d' % order[0]), ('data', 150000)]
+    huge_block = r.randrange(n) if (huge and r.random() < huge) else -1
+    if huge_block >= 0:
+        # word 1 must hold the stack pointer: the first branch has to fit into word 0, so it goes to a trampoline next to it
+        items = [('ref', 'BR', 'T0'), ('data', 150000), ('label', 'T0'), ('ref', 'BR', 'B%d' % order[0])]
     # data words (ids), each named by a label directly before it
     dpos = r.random() < 0.5
     data = []
@@ -419,6 +423,9 @@ def gen_tour(r, nblocks=None, funcproc=False):
                 blk += [('ref', 'LDAP', nxt), ('imm', 'LDBM', 1), ('imm', 'STAI', 1), ('imm', 'LDBI', 1), ('opr', 'BRB')]
         # unreachable filler that changes distances
         blk += [('pad', r.choice(pads))]
+        if bi == huge_block:
+            # an image larger than 64 KiB (or 128 KiB) with live blocks and data words beyond the boundary
+            blk[-1] = ('pad', r.choice([65500, 66000, 70000, 131100, 140000]))
         items += blk
     if not dpos:
         items += [('pad', r.randint(0, 3))] + data
